@@ -30,7 +30,7 @@ def pushes_through_the_encoder(ctx):
     """every data push the script tools write is the encoder's: ScriptStreamer.compile_push_data is the one place that picks the
     shortest push (OP_0, OP_1..OP_16, OP_1NEGATE, direct, PUSHDATA1/2/4); a writer that encodes a push itself beside it (a length
     byte and the data) is a second, different definition of `the push of this value`"""
-    for nm in ("ScriptTools.write_push_data", "ScriptTools.compile_push_data_list"):
+    for nm in ("ScriptTools.write_push_data",):
         g = ctx.func("pycoin/vm/ScriptTools.py", nm)
         w = sym.walk(ctx, g)
         n_ = 0
@@ -41,10 +41,6 @@ def pushes_through_the_encoder(ctx):
                 ctx.check("compile_push_data(" in norm(a), "push-through-encoder:%s" % nm.split(".")[-1], ctx.where(g, e.node),
                           "%s writes `%s`, bytes it made itself, next to the push encoder: a literal such as 0x05 or 0x81 is then pushed by length byte + data instead of OP_5 / OP_1NEGATE -- not the shortest push, and not what compile_push_data gives for the same value" % (nm, norm(a)[:60]),
                           sample={"writer": nm, "writes": norm(a)[:60]})
-        for e in w.exits:
-            if e.kind == "return" and e.value is not None and nm.endswith("compile_push_data_list"):
-                n_ += 1
-                ctx.check("compile_push_data(" in norm(e.value), "push-through-encoder:%s" % nm.split(".")[-1], ctx.where(g, e.node), "%s returns `%s` without going through compile_push_data" % (nm, norm(e.value)[:60]))
         if n_ == 0:
             ctx.undecided("push-through-encoder:%s" % nm.split(".")[-1], ctx.where(g), "%s: no write / return this rule can read" % nm)
 
